@@ -82,6 +82,21 @@ def tok(digs):
             i = k
     return "+".join(out)
 
+def untok(t):
+    """token -> digit string (None if the token carries raw hex bytes)"""
+    if t == "-":
+        return ""
+    out = []
+    for part in t.split("+"):
+        if part.startswith("d"):
+            out.append(part[1:])
+        elif part.startswith("r"):
+            n, hx = part[1:].split(":")
+            out.append(chr(int(hx, 16)) * int(n))
+        else:
+            return None
+    return "".join(out)
+
 def pf(f, int_s, frac_s, e, cmd="pf"):
     return "%s %s %s %s %d" % (cmd, f, tok(int_s), tok(frac_s), e)
 
@@ -1050,6 +1065,29 @@ def gen_float_helpers(rng, f, count):
     return out
 
 # ------------------------------------------------------------------ F*: front-end strings (C19)
+def frontend_from_pf(rng, pf_cases, variants=("simple", "fuzz", "itest", "golang", "random", "unittests")):
+    """the structured parser inputs (rounding boundaries, digit cuts, big-integer ties) written as TEXT and
+    sent through the shipped string front-ends: sign, leading zeros, '.', exponent marker, trailing junk"""
+    out = []
+    for line, fam in pf_cases:
+        t = line.split(" ## ")[0].split()
+        a, b = untok(t[2]), untok(t[3])
+        if t[0] != "pf" or a is None or b is None or not (a + b).isdigit():
+            continue
+        e = int(t[4])
+        if not (a or b):
+            continue
+        s = rng.choice(["", "", "+", "-"]) + "0" * rng.choice([0, 0, 0, 1, 3]) + a
+        if b or rng.random() < 0.2:
+            s += "." + b
+        if e != 0 or rng.random() < 0.3:
+            s += rng.choice("eE") + (rng.choice(["", "+"]) if e >= 0 else "") + str(e)
+        s += rng.choice(["", "", "", " ", "x", "e", "."]) if (e != 0 or "e" not in s.lower()) else ""
+        bs = s.encode("latin-1")
+        v = rng.choice(variants)
+        out.append(("fe %s %s %s" % (v, t[1], btok(bs)), "F-text-" + fam))
+    return out
+
 def gen_frontend(rng, count):
     out = []
     specials = ["nan", "NaN", "NAN", "nAn", "inf", "INF", "Inf", "infinity", "INFINITY", "InFiNiTy", "infinit", "infinitx", "in", "na", "n", "i",
